@@ -16,6 +16,7 @@ def canon_prv(trace, P, fixer):
     return tr
 
 class C15(Prop):
+    layouts = True
     translators = ['elicitor', 'bsearch', 'rootn']   # the three binary_search functions and Elicitor.__init__ / Elicitor.elicit regenerated from elicitation_utils.py on every run
     pid = "C15"
     sources = ["socialchoicekit/elicitation_utils.py", "socialchoicekit/elicitation_voting.py", "socialchoicekit/elicitation_allocation.py", "socialchoicekit/elicitation_matching.py"]
@@ -63,8 +64,29 @@ class C15(Prop):
             qs += [rng.choice(qs) for _ in range(rng.randint(0, 6))]
             rng.shuffle(qs)
             # memoize, batching and elicitor class vary independently of each other (a batch may contain the same new question twice)
-            yield dict(entry="Elicitor", family="sequence", rule="SEQ", V=V, qs=qs, memoize=bool(i % 3), ezi=bool(i % 4 < 2), integer=integer,
-                       cls=["lambda", "profile"][(i // 3) % 5 == 0], multiple=bool((i // 3) % 2 == 0))
+            c = dict(entry="Elicitor", family="sequence", rule="SEQ", V=V, qs=qs, memoize=bool(i % 3), ezi=bool(i % 4 < 2), integer=integer,
+                     cls=["lambda", "profile"][(i // 3) % 5 == 0], multiple=bool((i // 3) % 2 == 0))
+            if c["multiple"] and (i // 6) % 2 == 0 and len(qs) >= 2:     # a session that mixes the two entry points: single questions first, then a batch
+                c["split"] = rng.randint(1, len(qs) - 1); c["family"] = "sequence_mixed"
+            yield c
+        # sessions that mix the two entry points on one elicitor: single questions, then a batch, then single questions again; all values
+        # distinct, so that an answer taken from any other cell is visible
+        for i in range(60 if tier == "quick" else 1500):
+            n = rng.randint(2, 5); m = rng.randint(2, 6); integer = bool(i % 2)
+            V = [[float(10 * a + b + 1) if integer else (10 * a + b + 1) / 7.0 for b in range(m)] for a in range(n)]
+            qs = [(rng.randrange(n), rng.randrange(m)) for _ in range(rng.randint(8, 20))]
+            yield dict(entry="Elicitor", family="mixed_session", rule="SEQ", V=V, qs=qs, memoize=bool(i % 5), ezi=bool(i % 4 < 2), integer=integer,
+                       cls=["lambda", "profile"][i % 7 == 0], multiple=True, split=rng.randint(2, len(qs) - 5), tail=rng.randint(0, 3))
+        # indices that cross from one to two decimal digits: any key or cache that identifies a question by a concatenated / fixed-width
+        # representation of (agent, alternative) confuses (1, 10+x) with (11, x)
+        for i in range(16 if tier == "quick" else 200):
+            n = rng.randint(12, 14); m = rng.randint(11, 14)
+            V = [[float(100 * a + b) for b in range(m)] for a in range(n)]
+            x = rng.randrange(m - 10)
+            qs = [(1, 10 + x), (11, x), (0, 10 + x), (10, x)] + [(rng.randrange(n), rng.randrange(m)) for _ in range(rng.randint(0, 10))]
+            if i % 2: rng.shuffle(qs)
+            yield dict(entry="Elicitor", family="two_digit_indices", rule="SEQ", V=V, qs=qs, memoize=True, ezi=bool(i % 4 < 2), integer=bool(i % 3 == 0),
+                       cls=["lambda", "profile"][i % 5 == 0], multiple=bool(i % 2))
         for c in self.long_sequences(rng, tier):
             yield c
 
@@ -104,7 +126,10 @@ class C15(Prop):
                 el = (IntegerLambdaElicitor if case["integer"] else LambdaElicitor)(cb, memoize=case["memoize"], zero_indexed=case["ezi"])
                 f = fixer
             if case["multiple"]:
-                ans = el.elicit_multiple(np.array([a for a, _ in case["qs"]]), np.array([b for _, b in case["qs"]])).tolist()
+                sp = case.get("split", 0); tl = len(case["qs"]) - case.get("tail", 0)
+                qs1, qs2, qs3 = case["qs"][:sp], case["qs"][sp:tl], case["qs"][tl:]
+                ans = ([el.elicit(a, b) for a, b in qs1] + el.elicit_multiple(np.array([a for a, _ in qs2], dtype=int), np.array([b for _, b in qs2], dtype=int)).tolist()
+                       + [el.elicit(a, b) for a, b in qs3])
             else:
                 ans = [el.elicit(a, b) for a, b in case["qs"]]
             return dict(status="ok", answers=[None if x != x else float(x) for x in ans], trace=trace, count=el.elicitation_count, fixer=f,
